@@ -639,7 +639,7 @@ def main(tier, seed, replay=None):
                        'ThreadWorker.terminate(force=True) (SIGTERM to the own process) is recorded, not executed',
                        'remote workers obey the same wait/terminate contract as process workers (exercised on real remote workers in thorough, not modelled)']
     res.trusted.append('hand-written models PoolLife/Model.v, Pool/Model.v [rounds]; scripted children (harness/life.py, harness/props/c04.py), scripted pool (harness/sched_pool.py)')
-    core.prove(res, PROP, [], PROOFS, run_files=['theories/PoolLife/Run.v', 'theories/Pool/Run.v'])
+    core.prove(res, PROP, ['RemoteLive'], PROOFS, run_files=['theories/PoolLife/Run.v', 'theories/Pool/Run.v'])
     sys.path.insert(0, core.REPO)
     if replay:
         c = json.load(open(replay)).get('first', {}).get('case')
